@@ -70,6 +70,8 @@ func (m *Model) PullEnterLeaveEvents(ctx context.Context, opts ...resource.ReadO
 			val := change.Value.(*traits.EnterLeaveEvent)
 			if change.LastSeedValue {
 				// when sending the initial data (not an update), the occupant and direction should be absent.
+				// Without a read mask val is the stored message itself: clear the fields of a copy.
+				val = proto.Clone(val).(*traits.EnterLeaveEvent)
 				val.Occupant = nil
 				val.Direction = traits.EnterLeaveEvent_DIRECTION_UNSPECIFIED
 			}
